@@ -379,9 +379,11 @@ func (self *_parser) chrAt(index int) _chr {
 	}
 }
 
+// _peek returns the byte after the current character (self.offset is already past
+// the current character).
 func (self *_parser) _peek() rune {
-	if self.offset+1 < self.length {
-		return rune(self.str[self.offset+1])
+	if self.offset < self.length {
+		return rune(self.str[self.offset])
 	}
 	return -1
 }
